@@ -1,5 +1,5 @@
 """C02 — the interpreter agrees with an independent IEC reference semantics for the ST core."""
-from checks.stcore_common import COMMON_TRUSTED, make_extra, translate_faults
+from checks.stcore_common import COMMON_TRUSTED, make_extra, make_replay, translate_faults
 
 SPEC = {
     "id": "C02",
@@ -22,6 +22,7 @@ SPEC = {
 }
 
 extra = make_extra("C02")
+replay = make_replay("C02")
 
 MANIFEST = {
     "technique": "Lean 4 refinement proof (implementation model = independently written, statically typed IEC reference) under a decidable guard + counterexamples + differential correspondence against the real runtime + the reference itself run as the oracle on the implementation's variable dumps",
